@@ -150,6 +150,7 @@ func runC13(c *core.Ctx) {
 		}
 		if name == "Repositories" {
 			checkC13Listing(c, fn)
+			checkFilterCallbackReturns(c, "C13.R4", "sub.Repositories", fn)
 		}
 	}
 	checkC13NameMap(c, nameMap)
@@ -235,6 +236,12 @@ func sliceHas(v ssa.Value, pred func(ssa.Value) bool) bool {
 				}
 			}
 		case *ssa.MakeInterface:
+			return walk(x.X, d+1)
+		case *ssa.Field:
+			return walk(x.X, d+1)
+		case *ssa.FieldAddr:
+			return walk(x.X, d+1)
+		case *ssa.ChangeType:
 			return walk(x.X, d+1)
 		}
 		return false
@@ -447,6 +454,45 @@ func checkC13CtxMap(c *core.Ctx, cm, nameMap *ssa.Function) {
 		}
 	}
 	c.Check(rewrote, "C13.R5", key+"/rewrite", orPos(rewritePos, cm.Pos()), "Resource of repository scopes is rewritten with nameMap", "ctxMap does not rewrite the Resource of repository-typed scopes with nameMap (stored back, under ResourceType == \"repository\")")
+	// (a2) must-pass-through: once a scope is known to be repository-typed, every
+	// path to the end of the callback passes through the rewriting store — no
+	// further condition may exempt a repository scope from the rewrite.
+	for _, f := range facts.WithAnon(cm) {
+		for _, b := range f.Blocks {
+			for idx := range b.Succs {
+				isRepoEdge := false
+				for _, cd := range facts.EdgeConds(b, idx) {
+					if x, op, y, ok := facts.Cmp(cd); ok && op == token.EQL {
+						_, f3, isF := facts.FieldOf(facts.Resolve(x))
+						if s, isS := facts.ConstString(y); isF && f3 == "ResourceType" && isS && s == "repository" {
+							isRepoEdge = true
+						}
+					}
+				}
+				if !isRepoEdge {
+					continue
+				}
+				isRewrite := func(in ssa.Instruction) bool {
+					st, ok := in.(*ssa.Store)
+					if !ok {
+						return false
+					}
+					if _, f2, ok := facts.FieldOf(st.Addr); !ok || f2 != "Resource" {
+						return false
+					}
+					call, ok := facts.Resolve(st.Val).(*ssa.Call)
+					return ok && call.Call.StaticCallee() == nameMap
+				}
+				exit, escapes := facts.ReachesFrom(b.Succs[idx], 0, facts.IsExit, isRewrite, nil)
+				pos := b.Instrs[len(b.Instrs)-1].Pos()
+				if escapes {
+					c.Fail("C13.R5", key+"/rewrite-unconditional", orPos(exit.Pos(), pos), "a repository-typed scope can reach the end of the rewriting callback without its Resource being rewritten (an extra condition exempts some names): the backend sees a scope for a different repository than the one the call acts on")
+				} else {
+					c.OK("C13.R5", key+"/rewrite-unconditional", pos, "every repository-typed scope passes through the rewrite")
+				}
+			}
+		}
+	}
 	// (b) every return is the parameter (nothing to rewrite) or ContextWithScope(ctx, NewScope(...)).
 	for _, r := range returnsOf(cm) {
 		if len(r.Results) != 1 {
